@@ -49,6 +49,11 @@ func init() {
 		ID: "C12",
 		Rules: []RuleSpec{
 			{"opcode-tables", "every Opcode constant is valid in the decoder table, dispatched by vm.execute (arm or PUSHINT range test, faulting default), priced in fee.coefficients, and operand usage agrees between decoder and dispatcher", ruleOpcodeTables},
+			{"panic-scope", "execute starts by deferring the recover + MaxStackSize closure, is entered only from step/StepInto, and nothing reachable from Run/Step* outside it panics explicitly", rulePanicScope},
+			{"gas-before-dispatch", "on the priced branch the price is fetched, added and compared with the limit (faulting) before any instruction touches the stack", ruleGasBeforeDispatch},
+			{"limit-guards", "every growth site of a bounded resource (NEWBUFFER/CAT allocation, SHL/SHR/POW operand, TRY nesting, NEWARRAY size, invocation stack) is gated by the comparison with its limit", ruleLimitGuards},
+			{"bigint-ctor", "conversions to *stackitem.BigInteger exist only in package stackitem, each after CheckIntegerSize or from a <=64-bit source; NewBigInteger faults on an oversized value", ruleBigintCtor},
+			{"slot-scope", "the static slot's references are released only when the last frame of its script unloads", ruleSlotScope},
 			{"jump-opcode-agreement", "the set of opcodes whose execute arm computes a jump target equals the set whose operands IsScriptCorrect records as jump targets; the boundary subset test gates its success exit; interpreter and checker share one decoder", ruleJumpAgreement},
 		},
 		NotCovered: "the reference counter's arithmetic (never under-counts), implicit run-time panics outside the recover scope",
